@@ -46,8 +46,11 @@ def runC16 (op : String) (j : Json) : R Json := do
     let (csI, extra) ← if hasFld j "rate" then do
         let rate ← fld j "rate" >>= asRat
         -- `exact_cs` = the exact-rational model; `inrange` = the float product is a normal double or zero
+        -- `reader` = the constructor's bounds as ONE model definition (`readerChunkBoundsFl`: chunk length, assert, bounds)
         pure (chunkSizeFl rate, [("exact_cs", jInt (chunkSize rate)),
-                                 ("inrange", Json.bool (decide (PhyVerif.Fl.InRange (defaultChunkDuration * rate))))])
+                                 ("inrange", Json.bool (decide (PhyVerif.Fl.InRange (defaultChunkDuration * rate)))),
+                                 ("product_is_double", Json.bool (PhyVerif.Fl.isDoubleB (defaultChunkDuration * rate))),
+                                 ("reader", jOpt jNats (readerChunkBoundsFl sizes rate))])
       else do
         let cs ← getNat j "cs"
         pure ((cs : Int), [])
